@@ -46,6 +46,8 @@ OPS = [
     (r"\.min\(", ".max("), (r"\.max\(", ".min("),
     (r"\bsaturating_sub\b", "saturating_add"),
     (r"if !", "if "),
+    # a forgotten statement: a stand-alone call that only has an effect
+    (r"^(\s*)[A-Za-z_][A-Za-z_0-9\.]*\.(push|append|insert|extend|pop_question|push_question|sort|dedup|clear|retain|remove|truncate|merge|insert_merge|push_increase|push_decrease|change_priority)\(.*\);\s*$", "\\1();"),
 ]
 
 
@@ -68,6 +70,9 @@ def code_lines(path):
                 depth_skip[1] = True
             if depth_skip[1] and depth_skip[0] <= 0:
                 depth_skip = None
+            continue
+        if '#[cfg(any(feature = "test-util", test))]' in l:
+            depth_skip = [0, False]
             continue
         if 'feature = "resolved_verif"' in l and "not(" not in l:
             depth_skip = [0, False]
@@ -97,7 +102,7 @@ def candidates(path):
                     continue
                 if code.count('"') >= 2 and code.find('"') < m.start() < code.rfind('"'):
                     continue
-                new = code[: m.start()] + rep + code[m.end():] + l[len(code):]
+                new = (m.expand(rep) if rep.startswith("\\1") else code[: m.start()] + rep + code[m.end():]) + l[len(code):]
                 res.append((i, l, new, f"{pat} -> {rep}"))
     return lines, res
 
@@ -164,7 +169,8 @@ def cmd_run(outdir):
             res["status"] = "apply-failed"
         else:
             try:
-                rc, out = sh(f"cd {REPO} && cargo test --workspace --offline 2>&1 | tail -40", 1800)
+                rc, out = sh(f"cd {REPO} && cargo test --workspace --offline 2>&1 | tail -40", 600)
+                sh("pkill -9 -f '[/]repo/target/debug/deps/' ; true", 30)  # a test binary the mutant sent into a loop
                 if "error" in out and "could not compile" in out:
                     res["status"] = "does-not-compile"
                 elif "FAILED" in out or "panicked" in out or rc != 0 and "test result" not in out:
